@@ -136,6 +136,51 @@ func (R *Run) checkCursor(rule string, only func(name string) bool) int {
 		if !advanced {
 			problems = append(problems, "the cursor is never advanced by the number of bytes copied")
 		}
+		// R2': what the receiver's slice fields point to is shared by every copy of the object (a broadcast hands the same
+		// Fields array to one sender goroutine per recipient): the encoder neither stores into an element of such a
+		// slice nor hands a pointer to one to an encoder that advances a cursor in it — elements are encoded from a copy
+		{
+			inRecvSlice := func(addr ssa.Value) bool {
+				for d := 0; d < 6; d++ {
+					switch x := addr.(type) {
+					case *ssa.FieldAddr:
+						addr = x.X
+					case *ssa.IndexAddr:
+						if ld, ok := x.X.(*ssa.UnOp); ok && ld.Op == token.MUL {
+							if fa, ok := ld.X.(*ssa.FieldAddr); ok && fa.X == ssa.Value(recv) {
+								if _, isSlice := ld.Type().Underlying().(*types.Slice); isSlice {
+									return true
+								}
+							}
+						}
+						addr = x.X
+					default:
+						return false
+					}
+				}
+				return false
+			}
+			eachInstr(fn, func(ins ssa.Instruction) {
+				switch x := ins.(type) {
+				case *ssa.Store:
+					if inRecvSlice(x.Addr) {
+						problems = append(problems, "an element of a slice field of the receiver is written at "+P.ipos(x)+": the slice's backing array is shared by the per-recipient copies of a broadcast, concurrent senders corrupt each other's encoding")
+					}
+				case ssa.CallInstruction:
+					for _, a := range x.Common().Args {
+						v := a
+						if mi, ok := v.(*ssa.MakeInterface); ok {
+							v = mi.X
+						}
+						if _, isPtr := v.Type().Underlying().(*types.Pointer); isPtr && inRecvSlice(v) {
+							if _, isBuiltin := x.Common().Value.(*ssa.Builtin); !isBuiltin {
+								problems = append(problems, "a pointer to an element of a slice field of the receiver is handed to "+calleeName(x.Common())+" at "+P.ipos(x)+": the element's own read cursor is advanced in memory that other goroutines encode from at the same time (elements must be encoded from a copy)")
+							}
+						}
+					}
+				}
+			})
+		}
 
 		// R3: EOF guard on cursor >= len(buf) dominating the copy, returning (0, io.EOF)
 		guard := false
